@@ -1,6 +1,6 @@
 # C10 — block processing never panics for user histories or accepted policy settings
 LEAN_MODULES = ["Sif.Props.C10"]
-EXTRACT = []
+EXTRACT = [{"group": "policy", "passes": ["validate"]}]
 FAMILIES = [
     {"name": "policy", "family": "policy", "group": "policy", "driver": "drv_policy",
      "n_quick": 1200, "n_thorough": 12000, "seeds_thorough": 2},
